@@ -203,7 +203,7 @@ def build_kde(chk):
                     ('sample_size', {'sample_size': Sym(SS), 'bw_method': Sym(BW)})):
         def prior(I, c, m, cfg=cfg):
             if cfg == 'sample_size':
-                c.assume(ir.ge(SS, 1))
+                c.assume(ir.ge(SS, 2))           # a kernel estimate needs two points: scipy refuses a single one
         I, res, ctx = uni.run_fit_and_query(cls, ctor_kwargs=kw, methods=('probability_density',), constant=False,
                                             prior=prior)
         k = 0
